@@ -217,7 +217,7 @@ Proof.
     apply (proj1 (ksame_user_fd (kern s) i)).
   - destruct (rw_reg s j); intros E; inversion E; [|apply WFr_refl]. unfold raw_post.
     cbn [efd_raw emit set_trace kern rw_wfd].
-    destruct (efd_raw s =? 0).
+    destruct (raw_is_pipe _ j).
     + pose proof (ksame_write (kern s) (rw_wfd s j) 1 0) as K. destruct (k_write (kern s) (rw_wfd s j) 1 0) as [k1 x].
       apply WFr_kern; [intros ?; discriminate|discriminate|apply K].
     + pose proof (ksame_write (kern s) (rw_wfd s j) 8 1) as K. destruct (k_write (kern s) (rw_wfd s j) 8 1) as [k1 x].
